@@ -317,6 +317,9 @@ struct BlockResult {
     max_at: u32,
     max_truth_err: f64,
     fail: Option<String>,
+    /// error of the point `fail` describes, and how many points of the block fail
+    fail_err: f64,
+    n_fail: u64,
     n: u64,
 }
 
@@ -342,6 +345,7 @@ fn check_block(f: &Func, lo: u32, count: u64, stride: u32) -> BlockResult {
             res.n += 1;
             let e = (f.doc_ref)(x);
             let mut bad: Option<String> = None;
+            let mut bad_err = f64::INFINITY; // class mismatches rank above every numeric excess
             if y.is_nan() != e.is_nan() {
                 bad = Some("NaN mismatch".into());
             } else if e.is_nan() {
@@ -362,6 +366,7 @@ fn check_block(f: &Func, lo: u32, count: u64, stride: u32) -> BlockResult {
                 }
                 if err > limit {
                     bad = Some(format!("error {err:e} exceeds documented bound {limit:e}"));
+                    bad_err = err;
                 }
                 if f.exact_specials && e == 0.0 && y == 0.0 && e.to_bits() != y.to_bits() && x == 0.0 {
                     bad = Some("signed zero differs from the reference".into());
@@ -378,7 +383,10 @@ fn check_block(f: &Func, lo: u32, count: u64, stride: u32) -> BlockResult {
                 }
             }
             if let Some(b) = bad {
-                if res.fail.is_none() {
+                res.n_fail += 1;
+                // keep the WORST failing point of the block (not the first)
+                if res.fail.is_none() || bad_err > res.fail_err {
+                    res.fail_err = bad_err;
                     res.fail = Some(format!(
                         "{}({:08x} = {:e}) = {:08x} ({:e}), reference {:08x} ({:e}): {}",
                         f.name, x.to_bits(), x, y.to_bits(), y, e.to_bits(), e, b
@@ -475,7 +483,7 @@ fn sweeps(out: &mut Out, args: &Args) {
             out.case(
                 &format!("# sweep {} block={:02x} stride={} offset={} points={}", f.name, b, stride, offset, r.n),
                 &format!("max_err={:.4e} at={:08x}", r.max_err, r.max_at),
-                r.fail.as_deref(),
+                r.fail.as_ref().map(|m| format!("{m} [worst of {} failing points in the block]", r.n_fail)).as_deref(),
                 r.n > 0,
             );
         }
